@@ -265,7 +265,7 @@ func checkC09() fw.Check {
 			perProbe, chunks := 800, 3
 			if tier == "thorough" {
 				wins = []window{{1, 6}, {250, 255}, {3, 12}, {1, 3}}
-				perProbe, chunks = 2500, 30
+				perProbe, chunks = 2500, 80
 			}
 			var cases []fw.Case
 			for _, v := range refmatch.Variants {
